@@ -93,17 +93,13 @@ func TxSizeForFee(tx Transaction) (int, error) {
 	}
 	fullSize := len(cborData)
 	if tx.Type() >= txTypeAlonzo {
-		dec, err := cbor.NewStreamDecoder(cborData)
-		if err == nil {
-			arrayLen, _, _, decodeErr := dec.DecodeArrayHeader()
-			if decodeErr == nil {
-				if arrayLen == 4 {
-					return fullSize - 1, nil
-				}
-				return fullSize, nil
-			}
+		// Count the envelope's elements with a helper that also understands
+		// indefinite-length arrays: the transaction decoders accept them, and
+		// a header-only scan would silently skip the IsValid adjustment.
+		arrayLen, err := cbor.ListLength(cborData)
+		if err == nil && arrayLen == 4 {
+			return fullSize - 1, nil
 		}
-		return fullSize, nil
 	}
 	return fullSize, nil
 }
